@@ -729,6 +729,10 @@ impl<NumericTypes: EvalexprNumericTypes> Node<NumericTypes> {
                     if node.operator().is_leaf() {
                         return Err(EvalexprError::AppendedToLeafNode);
                     }
+                    // A parenthesised expression never takes the preceding value as its operand.
+                    if node.operator() == &Operator::RootNode {
+                        return Err(EvalexprError::MissingOperatorOutsideOfBrace);
+                    }
 
                     // Unwrap cannot fail because is_leaf being false and has_enough_children being true implies that the operator wants and has at least one child
                     let last_child = self.children.pop().unwrap();
